@@ -45,3 +45,97 @@ int vm_bash512StepV(const octet* hash, void* st)
 	return VM_ABSENT;
 #endif
 }
+
+/* ---------------------------------------------------------------- value macros of u16.h / u32.h / u64.h / util.h that no library source uses
+   (rotations to the low side, u64Rev_, MIN3 .. MAX4): swept here against bit-by-bit / sort references.
+   out[0] = evaluations, out[1] = mismatches, out[2..5] = first mismatch (which, w, d, got) */
+#include <bee2/core/u16.h>
+#include <bee2/core/u32.h>
+#include <bee2/core/u64.h>
+#include <bee2/core/util.h>
+static unsigned long long vm_rot_ref(unsigned long long w, unsigned d, unsigned bits, int hi)
+{
+	unsigned long long r = 0, mask = bits == 64 ? ~0ull : ((1ull << bits) - 1);
+	unsigned i;
+	for (i = 0; i < bits; ++i)
+		if (w >> i & 1)
+			r |= 1ull << (hi ? (i + d) % bits : (i + bits - d) % bits);
+	return r & mask;
+}
+static void vm_note(unsigned long long out[6], int which, unsigned long long w, unsigned long long d, unsigned long long got)
+{
+	if (out[1]++ == 0) out[2] = (unsigned long long)which, out[3] = w, out[4] = d, out[5] = got;
+}
+static unsigned long long vm_alpha(unsigned i, unsigned bits)
+{
+	/* 0, all ones, single bits, pairs of adjacent bits, all ones minus one bit, alternating patterns */
+	unsigned long long mask = bits == 64 ? ~0ull : ((1ull << bits) - 1);
+	if (i == 0) return 0;
+	if (i == 1) return mask;
+	if (i == 2) return 0xAAAAAAAAAAAAAAAAull & mask;
+	if (i == 3) return 0x0123456789ABCDEFull & mask;
+	i -= 4;
+	if (i < bits) return 1ull << i;
+	i -= bits;
+	if (i < bits) return mask ^ (1ull << i);
+	i -= bits;
+	return (3ull << (i % (bits - 1))) & mask;
+}
+void vm_value_macros_sweep(unsigned long long out[6])
+{
+	unsigned w, d, i;
+	out[0] = out[1] = out[2] = out[3] = out[4] = out[5] = 0;
+	for (w = 0; w < 65536; ++w)
+		for (d = 1; d < 16; ++d)
+		{
+			u16 a = (u16)w, hi = u16RotHi(a, d), lo = u16RotLo(a, d);
+			out[0] += 2;
+			if (hi != (u16)vm_rot_ref(w, d, 16, 1)) vm_note(out, 161, w, d, hi);
+			if (lo != (u16)vm_rot_ref(w, d, 16, 0)) vm_note(out, 160, w, d, lo);
+		}
+	for (i = 0; i < 4 + 3 * 32 - 1; ++i)
+		for (d = 1; d < 32; ++d)
+		{
+			u32 a = (u32)vm_alpha(i, 32), hi = u32RotHi(a, d), lo = u32RotLo(a, d);
+			out[0] += 2;
+			if (hi != (u32)vm_rot_ref(a, d, 32, 1)) vm_note(out, 321, a, d, hi);
+			if (lo != (u32)vm_rot_ref(a, d, 32, 0)) vm_note(out, 320, a, d, lo);
+		}
+#ifdef U64_SUPPORT
+	for (i = 0; i < 4 + 3 * 64 - 1; ++i)
+	{
+		u64 a = (u64)vm_alpha(i, 64), r = u64Rev_(a), rr = 0;
+		int k;
+		for (k = 0; k < 8; ++k) rr |= (a >> (8 * k) & 0xFF) << (8 * (7 - k));
+		out[0] += 1;
+		if (r != rr) vm_note(out, 648, a, 0, r);
+		for (d = 1; d < 64; ++d)
+		{
+			u64 hi = u64RotHi(a, d), lo = u64RotLo(a, d);
+			out[0] += 2;
+			if (hi != (u64)vm_rot_ref(a, d, 64, 1)) vm_note(out, 641, a, d, hi);
+			if (lo != (u64)vm_rot_ref(a, d, 64, 0)) vm_note(out, 640, a, d, lo);
+		}
+	}
+#endif
+	{
+		static const size_t v[5] = {0, 1, 2, 3, (size_t)-1};
+		int a, b, c, e;
+		for (a = 0; a < 5; ++a) for (b = 0; b < 5; ++b) for (c = 0; c < 5; ++c)
+		{
+			size_t mn = v[a], mx = v[a];
+			if (v[b] < mn) mn = v[b]; if (v[c] < mn) mn = v[c];
+			if (v[b] > mx) mx = v[b]; if (v[c] > mx) mx = v[c];
+			out[0] += 2;
+			if (MIN3(v[a], v[b], v[c]) != mn) vm_note(out, 30, v[a], v[b], MIN3(v[a], v[b], v[c]));
+			if (MAX3(v[a], v[b], v[c]) != mx) vm_note(out, 31, v[a], v[b], MAX3(v[a], v[b], v[c]));
+			for (e = 0; e < 5; ++e)
+			{
+				size_t mn4 = v[e] < mn ? v[e] : mn, mx4 = v[e] > mx ? v[e] : mx;
+				out[0] += 2;
+				if (MIN4(v[a], v[b], v[c], v[e]) != mn4) vm_note(out, 40, v[a], v[e], MIN4(v[a], v[b], v[c], v[e]));
+				if (MAX4(v[a], v[b], v[c], v[e]) != mx4) vm_note(out, 41, v[a], v[e], MAX4(v[a], v[b], v[c], v[e]));
+			}
+		}
+	}
+}
